@@ -216,7 +216,7 @@ impl Simulation {
     /// simulation clock. This method blocks until all newly processed events
     /// have completed.
     pub fn step(&mut self) -> Result<(), ExecutionError> {
-        self.step_to_next_bounded(MonotonicTime::MAX).map(|_| ())
+        self.step_to_next_bounded(MonotonicTime::MAX, false).map(|_| ())
     }
 
     /// Iteratively advances the simulation time until the specified deadline,
@@ -397,10 +397,13 @@ impl Simulation {
     /// action as well as all other actions scheduled for the same time.
     ///
     /// If at least one action was found that satisfied the time bound, the
-    /// corresponding new simulation time is returned.
+    /// corresponding new simulation time is returned. Otherwise, if
+    /// `jump_to_bound` is set, the simulation time is advanced to the time
+    /// bound before the scheduler queue is unlocked.
     fn step_to_next_bounded(
         &mut self,
         upper_time_bound: MonotonicTime,
+        jump_to_bound: bool,
     ) -> Result<Option<MonotonicTime>, ExecutionError> {
         // Function pulling the next action. If the action is periodic, it is
         // immediately re-scheduled.
@@ -439,7 +442,15 @@ impl Simulation {
         let mut scheduler_queue = self.scheduler_queue.lock().unwrap();
         let mut current_key = match peek_next_key(&mut scheduler_queue) {
             Some(key) => key,
-            None => return Ok(None),
+            None => {
+                // The time must be updated while the scheduler queue is still
+                // locked, otherwise an action could be concurrently scheduled
+                // before the time bound (see `GlobalScheduler::schedule_from`).
+                if jump_to_bound {
+                    self.time.write(upper_time_bound);
+                }
+                return Ok(None);
+            }
         };
         self.time.write(current_key.0);
 
@@ -507,13 +518,12 @@ impl Simulation {
     /// of the current simulation time.
     fn step_until_unchecked(&mut self, target_time: MonotonicTime) -> Result<(), ExecutionError> {
         loop {
-            match self.step_to_next_bounded(target_time) {
+            match self.step_to_next_bounded(target_time, true) {
                 // The target time was reached exactly.
                 Ok(Some(t)) if t == target_time => return Ok(()),
                 // No actions are scheduled before or at the target time.
                 Ok(None) => {
-                    // Update the simulation time.
-                    self.time.write(target_time);
+                    // The simulation time was already moved to the target.
                     if let SyncStatus::OutOfSync(lag) = self.clock.synchronize(target_time) {
                         if let Some(tolerance) = &self.clock_tolerance {
                             if &lag > tolerance {
